@@ -8,7 +8,7 @@ import time as _time
 from dataclasses import dataclass, field
 
 from . import gen, lib
-from .lib import enc
+from .lib import enc, num
 
 lib.use_repo()
 
@@ -140,10 +140,11 @@ def render_state(gw: Gateway) -> str:
     for k, n in gw.nodes.items():
         children = []
         for ck, c in n.children.items():
-            vals = ",".join(f"{t}={enc(v)}" for t, v in c.values.items())
-            children.append(f"{ck}/{c.child_id}/{c.child_type}/{enc(c.description)}/{{{vals}}}")
-        nodes.append(f"{k}:{n.node_type}:{enc(n.protocol_version)}:{enc(n.sketch_name)}:{enc(n.sketch_version)}:"
-                     f"{n.battery_level}:{n.heartbeat}:{b(n.reboot)}:{b(n.sleeping)}:[{';'.join(children)}]")
+            vals = ",".join(f"{num(t)}={enc(v)}" for t, v in c.values.items())
+            children.append(f"{num(ck)}/{num(c.child_id)}/{num(c.child_type)}/{enc(c.description)}/{{{vals}}}")
+        # (enc / num render whatever the real objects hold - None, a float, a huge int - as tokens the model never prints)
+        nodes.append(f"{num(k)}:{num(n.node_type)}:{enc(n.protocol_version)}:{enc(n.sketch_name)}:{enc(n.sketch_version)}:"
+                     f"{num(n.battery_level)}:{num(n.heartbeat)}:{b(n.reboot)}:{b(n.sleeping)}:[{';'.join(children)}]")
     buf = gw._message_buffer
     pv = "pv=none" if gw.protocol_version is None else "pv=" + enc(gw.protocol_version)
     ib = " ".join(f"{k[0]}.{k[1]}.{k[2]}" for k in buf.internal_messages)
